@@ -104,7 +104,7 @@ let run_script (toks : string list) : string =
       (* last handle gone: the request channel closes *)
       if running () && !main_dropped && List.for_all (fun c -> op_finished c) (!st).ops then apply (DrvEnd EndedOk);
       let cmd_after = Hashtbl.fold (fun _ i acc -> acc + List.length i.cmds) infos 0 in
-      changed := (!st <> before) || cmd_after <> cmd_before
+      changed := (!st != before) || cmd_after <> cmd_before      (* physical: every step that changes anything allocates a new state; a deep comparison of states holding thousands of items is what made floods slow *)
     done in
   let observe () =
     let s = !st in
